@@ -14,32 +14,14 @@ func atoi4(s string) int {
 	return v
 }
 
-func atof3(s string) float64 {
-	v := float64((s[1]-'0'))*0.1 +
-		float64((s[2]-'0'))*0.01 +
-		float64((s[3]-'0'))*0.001
-	return v
-}
-
-func atof6(s string) float64 {
-	v := float64((s[1]-'0'))*0.1 +
-		float64((s[2]-'0'))*0.01 +
-		float64((s[3]-'0'))*0.001 +
-		float64((s[4]-'0'))*0.0001 +
-		float64((s[5]-'0'))*0.00001 +
-		float64((s[6]-'0'))*0.000001
-	return v
-}
-
-func atof9(s string) float64 {
-	v := float64((s[1]-'0'))*0.1 +
-		float64((s[2]-'0'))*0.01 +
-		float64((s[3]-'0'))*0.001 +
-		float64((s[4]-'0'))*0.0001 +
-		float64((s[5]-'0'))*0.00001 +
-		float64((s[6]-'0'))*0.000001 +
-		float64((s[7]-'0'))*0.0000001 +
-		float64((s[8]-'0'))*0.00000001 +
-		float64((s[9]-'0'))*0.000000001
+// atoiFraction converts the digits after the decimal point to nanoseconds, ignoring digits beyond the 9th
+func atoiFraction(s string) int {
+	v := 0
+	for i := 0; i < 9; i++ {
+		v *= 10
+		if i < len(s) {
+			v += int(s[i] - '0')
+		}
+	}
 	return v
 }
